@@ -96,7 +96,11 @@ def ground_axioms(terms):
                 new += [a >= 0]
                 if z3.is_int_value(ln) and ln.as_long() <= 64:
                     new += [a < 2 ** (8 * ln.as_long())]
-                new += [z3.Implies(z3.InRe(sarg, byte_re()), fwd(a, z3.Length(sarg)) == sarg)]
+                    new += [z3.Implies(z3.InRe(sarg, byte_re()), fwd(a, ln) == sarg)]
+                elif z3.is_app(sarg) and sarg.decl().name() in ('int_to_le', 'int_to_be'):
+                    pass        # from(to(v, k)): covered by the fact generated for the inner application
+                else:
+                    new += [z3.Implies(z3.InRe(sarg, byte_re()), fwd(a, z3.Length(sarg)) == sarg)]
             elif nm == 'hexlify':
                 sarg = a.arg(0)
                 new += [z3.Length(a) == 2 * z3.Length(sarg), z3.InRe(a, hexre), bm._UNHEX(a) == sarg]
